@@ -216,6 +216,12 @@ def corpus():
       multi(edit(dp, 'TBRMMDesignParameters', lambda n: isinstance(n, ast.Assign) and norm(n.targets[0]) == '_MIN_IROAS', lambda s, n: '_IROAS_MIN = 0.0'),
             edit(dp, 'TBRMMDesignParameters.__post_init__', lambda n: isinstance(n, ast.Attribute) and norm(n) == 'self._MIN_IROAS', 'self._IROAS_MIN')))
   # ---- C20
+  add('C20', 'entries parsed with a regular expression that need not reach the end of the entry', 'bad', 'R4/parse',
+      edit(ut, 'find_days_to_exclude', lambda n: isinstance(n, ast.Assign) and norm(n.targets[0]) == 'tmp',
+           lambda s, n: "tmp = [p_ for p_ in re.match(r'\\s*(\\d{4}/\\d{1,2}/\\d{1,2})\\s*(?:-\\s*(\\d{4}/\\d{1,2}/\\d{1,2}))?', x).groups() if p_]"))
+  add('C20', 'benign: the same expression anchored at the end', 'nonviolation', None,
+      edit(ut, 'find_days_to_exclude', lambda n: isinstance(n, ast.Assign) and norm(n.targets[0]) == 'tmp',
+           lambda s, n: "tmp = [p_ for p_ in re.fullmatch(r'\\s*(\\d{4}/\\d{1,2}/\\d{1,2})\\s*(?:-\\s*(\\d{4}/\\d{1,2}/\\d{1,2}))?\\s*', x).groups() if p_]"))
   add('C20', 'return without de-duplication', 'bad', 'R1/dedup', edit(ut, 'expand_time_windows', lambda n: isinstance(n, ast.Return), lambda s, n: 'return days_exclude'))
   add('C20', "date_range(..., inclusive='left')", 'bad', 'R2/closed-daily-range', edit(ut, 'expand_time_windows', is_call('pd.date_range'), lambda s, n: s.replace("freq='D'", "freq='D', inclusive='left'")))
   add('C20', 'handler raises TypeError', 'bad', 'R4/ValueError', edit(ut, 'find_days_to_exclude', lambda n: isinstance(n, ast.Name) and n.id == 'ValueError' and isinstance(n._parent, ast.Call)
@@ -359,6 +365,9 @@ def corpus():
   add('C03', 'benign: loop variable renamed', 'benign', None,
       edit(mm, MMQ + 'exhaustive_search.skip_if_subset', lambda n: isinstance(n, ast.For), lambda s, n: s.replace('for p in', 'for pattern in').replace('set(p)', 'set(pattern)')))
   # ---- C04
+  add('C04', 'assignments of the installed index selected by membership only (table order, not the given order)', 'bad', 'R4/single-source',
+      edit(md, 'TBRMMData.geo_index@setter', is_assign_to('self.geo_assignments'),
+           lambda s, n: 'self.geo_assignments = self.geo_eligibility.get_eligible_assignments(list(self.geo_eligibility.data.index[self.geo_eligibility.data.index.isin(geos)]), indices=True)'))
   add('C04', 'no deep copy of the reused diagnostics object', 'bad', 'R2/copy-before-escape',
       edit(mm, MMQ + 'exhaustive_search', lambda n: isinstance(n, ast.Call) and norm(n.func).endswith('TBRMMDesign'), lambda s, n: s.replace('copy.deepcopy(diag)', 'diag')))
   add('C04', 'treatment series built from the control group', 'bad', 'R1/provenance', edit(mm, MMQ + 'greedy_search', lambda n: isinstance(n, ast.Assign) and norm(n.targets[0]) == 'design_diag',
@@ -385,6 +394,9 @@ def corpus():
                                                                                          lambda s, n: 'n_ctl = n_c_fixed + i_cx + i_cctx'))
   add('C11', 'exact=False', 'bad', 'R2/exact', edit(mm, MMQ + 'count_max_designs', lambda n: isinstance(n, ast.Assign) and norm(n.targets[0]) == 'n1', lambda s, n: 'n1 = comb(n_ct, i_ct, exact=False)'))
   # ---- C12
+  add('C12', 'response column reshaped into the table after a sort on the date only', 'bad', 'R3/order-taint',
+      edit(md, 'TBRMMData.__init__', lambda n: isinstance(n, ast.Assign) and norm(n.targets[0]) == 'df' and 'pivot_table' in norm(n.value),
+           lambda s, n: "by_date_ = df.sort_values('date', kind='stable')\n    df = pd.DataFrame(by_date_[response_column].to_numpy().reshape(by_date_['date'].nunique(), by_date_['geo'].nunique()).T, index=pd.Index(by_date_['geo'].iloc[:by_date_['geo'].nunique()], name='geo')) if len(df) == by_date_['date'].nunique() * by_date_['geo'].nunique() else df.pivot_table(values=response_column, index='geo', columns='date', fill_value=0)"))
   add('C12', 'geo index built by iterating the set', 'bad', 'R3/order-taint', edit(mm, MMQ + 'geo_assignments', is_assign_to('geo_index'), lambda s, n: 'geo_index = list(geos_included)'))
   add('C12', 'astype(str) removed from the data side', 'bad', 'R1/canonical-ids', delete_stmt(md, 'TBRMMData.__init__', lambda n: isinstance(n, ast.Assign) and 'astype' in norm(n.value)))
   add('C12', 'absolute threshold on a response-scaled quantity', 'bad', 'R5/dimension', edit(dg, DG + 'aatest', lambda n: isinstance(n, ast.Compare) and norm(n) == 'lower * upper < 0', 'lower * upper < 1e-12'))
